@@ -177,7 +177,16 @@ def build_harness(extra_tags=()):
         shutil.copyfile(os.path.join(REPO, "go.sum"), os.path.join(WORK, "harness.go.sum"))
         tags = ["verif"] + sorted(extra_tags)
         out = os.path.join(WORK, "bin", "vh" + "".join("-" + t for t in tags[1:]))
-        rc, o = sh(["go", "build", "-modfile", alt, "-tags", ",".join(tags), "-o", out, "./cmd/vh"], cwd=HARNESS, env=GOENV, timeout=1800)
+        # built beside the target and renamed over it: a check running concurrently in this directory keeps executing
+        # the file it opened and never sees a missing or half-written binary
+        tmp = out + ".new%d" % os.getpid()
+        rc, o = sh(["go", "build", "-modfile", alt, "-tags", ",".join(tags), "-o", tmp, "./cmd/vh"], cwd=HARNESS, env=GOENV, timeout=1800)
+        if rc == 0:
+            os.replace(tmp, out)
+        else:
+            for f in (tmp, out):   # never test a stale binary when the build fails
+                if os.path.exists(f):
+                    os.remove(f)
     return rc, o, out
 
 
@@ -192,9 +201,14 @@ def build_repo_binary(pkg, name):
             p = os.path.join(REPO, fn)
             snap[fn] = open(p, "rb").read()
         try:
-            if os.path.exists(out):
-                os.remove(out)   # never test a stale binary when the build fails
-            rc, o = sh(["go", "build", "-o", out, pkg], cwd=REPO, env=GOENV, timeout=1800)
+            tmp = out + ".new%d" % os.getpid()
+            rc, o = sh(["go", "build", "-o", tmp, pkg], cwd=REPO, env=GOENV, timeout=1800)
+            if rc == 0:
+                os.replace(tmp, out)   # atomic: a concurrent check never sees the binary missing
+            else:
+                for f in (tmp, out):   # never test a stale binary when the build fails
+                    if os.path.exists(f):
+                        os.remove(f)
         finally:
             for fn, b in snap.items():
                 p = os.path.join(REPO, fn)
